@@ -3592,7 +3592,8 @@ Theorem delivers_attempt ops t a sl rest :
   snd (fstep s (FRetrierRun t [a])) = ORun OutDelivered /\
   stat (f_c s') t = Some Reachable /\ rstat s' t = Some RStopped /\ retrier_pending s' t = [] /\
   ~ In t (f_tasks s') /\ aget (c_retriers (f_c s')) t = None /\
-  (forall l, In l (retrier_pending s t) -> ~ Prow (c_db (f_c s')) t l /\ recorded (c_db (f_c s')) t l).
+  (forall l, In l (retrier_pending s t) -> ~ Prow (c_db (f_c s')) t l /\ recorded (c_db (f_c s')) t l) /\
+  (forall k x, Prow (c_db (f_c s')) k x -> Prow (c_db (f_c s)) k x).
 Proof.
   intros Hg s Hp Hin Hk Hadds Hlen Hreg. pose proof (FInv_frun ops f_init FInv_init Hg) as HF. fold s in HF.
   assert (Hrun : rstat s t = Some RRunning) by (apply HF, Hin).
@@ -3624,6 +3625,7 @@ Proof.
   split; [apply Hnr|].
   split.
   { unfold c2. cbn [c_retriers with_retriers]. rewrite aget_aremove, N.eqb_refl. reflexivity. }
+  split; [|intros k x; unfold c2; cbn [c_db with_retriers]; rewrite DbInv_set_status; apply PA].
   intros l Hl. unfold c2. cbn [c_db with_retriers]. rewrite DbInv_set_status. split; [apply (PN eq_refl l Hl)|].
   apply K. right. left.
   destruct HF as [_ [_ [HV _]]]. destruct (HV Hp) as [_ [V2 _]]. apply V2; [exact Hk|]. rewrite tracked_eq. apply in_or_app. left. exact Hl.
@@ -3768,18 +3770,18 @@ Proof. rewrite retriers_set_status. reflexivity. Qed.
 Definition tsame (t : N) (s s' : fstate) : Prop :=
   aget (f_mgr s') t = aget (f_mgr s) t /\ aget (c_retriers (f_c s')) t = aget (c_retriers (f_c s)) t /\
   stat (f_c s') t = stat (f_c s) t /\ c_db (f_c s') = c_db (f_c s) /\ f_chan s' = f_chan s /\
-  (In t (f_tasks s') <-> In t (f_tasks s)) /\ f_mgr_dead s' = f_mgr_dead s.
+  (In t (f_tasks s') <-> In t (f_tasks s)) /\ f_mgr_dead s' = f_mgr_dead s /\ poisoned s' = poisoned s.
 Lemma tsame_refl t s : tsame t s s.  Proof. repeat split; auto. Qed.
 Lemma tsame_trans t a b c : tsame t a b -> tsame t b c -> tsame t a c.
 Proof.
-  intros [A1 [A2 [A3 [A4 [A5 [A6 A7]]]]]] [B1 [B2 [B3 [B4 [B5 [B6 B7]]]]]]. repeat split; try congruence.
+  intros [A1 [A2 [A3 [A4 [A5 [A6 [A7 A8]]]]]]] [B1 [B2 [B3 [B4 [B5 [B6 [B7 B8]]]]]]]. repeat split; try congruence.
   - intros H. apply A6, B6, H.
   - intros H. apply B6, A6, H.
 Qed.
 
 Lemma wake_tsame t s k r : k <> t -> tsame t s (wake s k r).
 Proof.
-  intros Hn. unfold wake, tsame. cbn [f_mgr f_c f_chan f_tasks f_mgr_dead put_retrier set_mgr set_c c_retriers c_db with_retriers].
+  intros Hn. unfold wake, tsame, poisoned. cbn [f_mgr f_c f_chan f_tasks f_mgr_dead put_retrier set_mgr set_c c_retriers c_db c_poisoned with_retriers].
   rewrite aget_aset_other by congruence. rewrite aget_aremove. assert (E : N.eqb t k = false) by (apply N.eqb_neq; congruence). rewrite E.
   repeat split; auto.
 Qed.
@@ -3797,8 +3799,10 @@ Proof.
     change (option_map su_status (aget (c_towers (wt_set_tower_status (f_c s) k TemporaryUnreachable)) t)) with (stat (wt_set_tower_status (f_c s) k TemporaryUnreachable) t).
     rewrite stat_set_status, Et. reflexivity. }
   split; [destruct (is_subscription_error (su_status su)); [reflexivity|apply DbInv_set_status]|].
-  split; [reflexivity|]. split; [|reflexivity].
-  rewrite in_app_iff. cbn. split; [intros [H|[H|[]]]; [exact H|congruence]|tauto].
+  split; [reflexivity|]. split; [|split; [reflexivity|]].
+  - rewrite in_app_iff. cbn. split; [intros [H|[H|[]]]; [exact H|congruence]|tauto].
+  - unfold poisoned. cbn [f_c set_tasks put_retrier set_mgr set_c c_poisoned with_retriers].
+    destruct (is_subscription_error (su_status su)); [reflexivity|apply poisoned_set_status].
 Qed.
 
 (* the manager's map has one retrier per tower *)
@@ -4029,7 +4033,7 @@ Theorem manager_wakes s t r0 elapsed :
   let s1 := fst (f_manager_tick s elapsed) in
   aget (f_mgr s1) t = Some {| r_status := RStopped; r_pending := set_union (r_pending r0) (pending_locators (c_db (f_c s)) t) |} /\
   aget (c_retriers (f_c s1)) t = None /\ stat (f_c s1) t = stat (f_c s) t /\ c_db (f_c s1) = c_db (f_c s) /\
-  f_chan s1 = [] /\ f_mgr_dead s1 = false /\ (In t (f_tasks s1) <-> In t (f_tasks s)).
+  f_chan s1 = [] /\ f_mgr_dead s1 = false /\ (In t (f_tasks s1) <-> In t (f_tasks s)) /\ poisoned s1 = false.
 Proof.
   intros HF HK Hsafe Hp Hd Ec Hr Hidle Hel. unfold f_manager_tick. rewrite Hd, Ec. unfold mgr_sweep. rewrite Hp. cbn [andb]. cbv zeta.
   change (poisoned (retain_state s)) with (poisoned s). rewrite Hp. cbn [andb].
@@ -4043,7 +4047,7 @@ Proof.
   assert (Hss : should_start r0 = false) by (unfold should_start; rewrite Hidle; reflexivity).
   rewrite Hss, Hidle, Hel in HB. cbn [is_idle andb] in HB.
   destruct (sweep sR (map fst (f_mgr sR)) elapsed [] []) as [[[sF st] wk] o] eqn:ES. cbn [snd] in Hwhole. subst o. cbn [fst] in *.
-  destruct HA as [A1 [A2 [A3 [A4 [A5 [A6 A7]]]]]]. destruct HB as [B1 [B2 [B3 [B4 [B5 [B6 B7]]]]]].
+  destruct HA as [A1 [A2 [A3 [A4 [A5 [A6 [A7 A8]]]]]]]. destruct HB as [B1 [B2 [B3 [B4 [B5 [B6 [B7 B8]]]]]]].
   assert (R2 : aget (c_retriers (f_c sR)) t = aget (c_retriers (f_c s)) t \/ True) by (right; exact I).
   split.
   { rewrite B1. unfold wake, put_retrier, set_mgr. cbn [f_mgr set_c]. rewrite aget_aset_same. rewrite A4. reflexivity. }
@@ -4053,7 +4057,8 @@ Proof.
   split; [rewrite B4; unfold wake; cbn [f_c put_retrier set_mgr set_c c_db with_retriers]; exact A4|].
   split; [rewrite B5; unfold wake; cbn [f_chan put_retrier set_mgr set_c]; rewrite A5; exact Ec|].
   split; [rewrite B7; unfold wake; cbn [f_mgr_dead put_retrier set_mgr set_c]; rewrite A7; exact Hd|].
-  rewrite B6. unfold wake. cbn [f_tasks put_retrier set_mgr set_c]. exact A6.
+  split; [rewrite B6; unfold wake; cbn [f_tasks put_retrier set_mgr set_c]; exact A6|].
+  rewrite B8. unfold wake, poisoned. cbn [f_c put_retrier set_mgr set_c c_poisoned with_retriers]. unfold poisoned in A8. rewrite A8. exact Hp.
 Qed.
 
 (* ... and a stopped retrier holding data is started by the next tick: Running (also in WTClient::retriers), one
@@ -4065,7 +4070,7 @@ Theorem manager_starts s t r0 elapsed :
   aget (f_mgr s1) t = Some {| r_status := RRunning; r_pending := r_pending r0 |} /\
   aget (c_retriers (f_c s1)) t = Some RRunning /\ In t (f_tasks s1) /\
   stat (f_c s1) t = (if match stat (f_c s) t with Some SubscriptionError => true | _ => false end then stat (f_c s) t else Some TemporaryUnreachable) /\
-  c_db (f_c s1) = c_db (f_c s) /\ f_chan s1 = [] /\ f_mgr_dead s1 = false.
+  c_db (f_c s1) = c_db (f_c s) /\ f_chan s1 = [] /\ f_mgr_dead s1 = false /\ poisoned s1 = false.
 Proof.
   intros HF HK Hsafe Hp Hd Ec Hr Hss. unfold f_manager_tick. rewrite Hd, Ec. unfold mgr_sweep. rewrite Hp. cbn [andb]. cbv zeta.
   change (poisoned (retain_state s)) with (poisoned s). rewrite Hp. cbn [andb].
@@ -4077,9 +4082,9 @@ Proof.
   { apply sweep_no_abort; [exact HndR|]. intros k r _ Hk Hs. exact (starts_safe_retain s Hsafe k r Hk Hs). }
   destruct (sweep_at_t t elapsed sR r0 HndR HrR Hwhole) as [sA [HA [HB HC]]]. rewrite Hss in HB. specialize (HC Hss).
   destruct (sweep sR (map fst (f_mgr sR)) elapsed [] []) as [[[sF st] wk] o] eqn:ES. cbn [snd] in Hwhole. subst o. cbn [fst] in *.
-  destruct HA as [A1 [A2 [A3 [A4 [A5 [A6 A7]]]]]].
+  destruct HA as [A1 [A2 [A3 [A4 [A5 [A6 [A7 A8]]]]]]].
   destruct (retrier_start sA t r0) as [sB oB] eqn:EB. cbn [fst snd] in HB, HC. subst oB.
-  destruct HB as [B1 [B2 [B3 [B4 [B5 [B6 B7]]]]]].
+  destruct HB as [B1 [B2 [B3 [B4 [B5 [B6 [B7 B8]]]]]]].
   unfold retrier_start in EB. destruct (aget (c_towers (f_c sA)) t) as [su|] eqn:Et; [|discriminate]. inversion EB. subst sB. clear EB.
   cbn [f_mgr f_c f_chan f_tasks f_mgr_dead set_tasks put_retrier set_mgr set_c c_retriers c_db with_retriers] in *.
   assert (Hst : stat (f_c s) t = Some (su_status su)).
@@ -4094,5 +4099,113 @@ Proof.
     rewrite Et. cbn. rewrite Es. reflexivity. }
   split.
   { rewrite B4. destruct (is_subscription_error (su_status su)); [exact A4|rewrite DbInv_set_status; exact A4]. }
-  split; [rewrite B5, A5; exact Ec|]. rewrite B7, A7. exact Hd.
+  split; [rewrite B5, A5; exact Ec|]. split; [rewrite B7, A7; exact Hd|].
+  rewrite B8. unfold poisoned in *. cbn [f_c set_tasks put_retrier set_mgr set_c c_poisoned with_retriers].
+  destruct (is_subscription_error (su_status su)); [rewrite A8; exact Hp|rewrite poisoned_set_status, A8; exact Hp].
+Qed.
+
+Lemma knownc_of_stat c c' t : stat c' t = stat c t -> (knownc c' t <-> knownc c t).
+Proof. unfold knownc, amem, stat. destruct (aget (c_towers c') t), (aget (c_towers c) t); cbn; intros H; try discriminate; tauto. Qed.
+
+Lemma aget_of_In {V} (m : amap V) k v : In (k, v) m -> aget m k <> None.
+Proof.
+  induction m as [|[a b] m IH]; cbn; [contradiction|]. intros Hin. destruct (N.eqb k a) eqn:E; [discriminate|].
+  destruct Hin as [Hin|Hin]; [inversion Hin; subst; rewrite N.eqb_refl in E; discriminate|apply IH, Hin].
+Qed.
+
+(* after a tick that wakes only t, the only retrier the next tick will start is t's *)
+Lemma starts_safe_after_wake_tick s t :
+  MgrKeys s -> starts_safe s -> poisoned s = false -> f_mgr_dead s = false -> f_chan s = [] -> knownc (f_c s) t ->
+  starts_safe (fst (f_manager_tick s [t])).
+Proof.
+  intros HK Hsafe Hp Hd Ec Hkt. unfold f_manager_tick in *. rewrite Hd, Ec in *. unfold mgr_sweep in *. rewrite Hp in *. cbn [andb] in *. cbv zeta in *.
+  change (poisoned (retain_state s)) with (poisoned s) in *. rewrite Hp in *. cbn [andb] in *.
+  set (sR := retain_state s) in *.
+  assert (HndR : NoDup (map fst (f_mgr sR))) by (unfold sR, retain_state, set_mgr; cbn [f_mgr]; apply NoDup_keys_aretain, HK).
+  assert (Hwhole : snd (sweep sR (map fst (f_mgr sR)) [t] [] []) = None).
+  { apply sweep_no_abort; [exact HndR|]. intros k r _ Hk Hs. exact (starts_safe_retain s Hsafe k r Hk Hs). }
+  intros k r Hk Hs.
+  destruct (aget (f_mgr sR) k) as [rk|] eqn:Erk.
+  - destruct (sweep_at_t k [t] sR rk HndR Erk Hwhole) as [sA [HA [HB HC]]].
+    destruct (sweep sR (map fst (f_mgr sR)) [t] [] []) as [[[sF st] wk] o] eqn:ES. cbn [snd] in Hwhole. subst o. cbn [fst] in *.
+    destruct HA as [A1 [_ [A3 _]]].
+    destruct (should_start rk) eqn:Essk.
+    + (* it was started: Running now *)
+      exfalso. specialize (HC eq_refl). destruct (retrier_start sA k rk) as [sB oB] eqn:EB. cbn [fst snd] in HB, HC. subst oB.
+      destruct HB as [B1 _]. unfold retrier_start in EB. destruct (aget (c_towers (f_c sA)) k); [|discriminate]. inversion EB. subst sB.
+      cbn [f_mgr set_tasks put_retrier set_mgr set_c] in B1. rewrite aget_aset_same in B1. rewrite B1 in Hk. inversion Hk. subst r. discriminate Hs.
+    + destruct (is_idle (r_status rk) && memN k [t]) eqn:Ew.
+      * (* woken: only t *)
+        apply andb_true_iff in Ew. destruct Ew as [_ Ew]. cbn in Ew. rewrite orb_false_r in Ew. apply N.eqb_eq in Ew. subst k.
+        destruct HB as [_ [_ [B3 _]]]. unfold wake in B3. cbn [f_c put_retrier set_mgr set_c] in B3. unfold stat in B3 at 2. cbn [c_towers with_retriers] in B3.
+        apply (knownc_of_stat (f_c sA) (f_c sF) t); [exact B3|]. apply (knownc_of_stat (f_c sR) (f_c sA) t A3). exact Hkt.
+      * exfalso. destruct HB as [B1 _]. rewrite B1, A1, Erk in Hk. inversion Hk. subst r. congruence.
+  - exfalso. assert (Hnin : ~ In k (map fst (f_mgr sR))).
+    { intros Hin. apply in_map_iff in Hin. destruct Hin as [[k' v] [E Hin]]. cbn in E. subst k'.
+      apply (aget_of_In _ _ _ Hin). exact Erk. }
+    pose proof (sweep_frame k [t] (map fst (f_mgr sR)) sR [] [] Hnin Hwhole) as [F1 _].
+    destruct (sweep sR (map fst (f_mgr sR)) [t] [] []) as [[[sF st] wk] o]. cbn [snd] in Hwhole. subst o. cbn [fst] in *. rewrite F1, Erk in Hk. discriminate.
+Qed.
+
+Lemma ops_fresh_app : forall a b s, ops_fresh s (a ++ b) = ops_fresh s a && ops_fresh (frun s a) b.
+Proof. induction a as [|o a IH]; intros b s; cbn; [reflexivity|]. rewrite IH, andb_assoc. reflexivity. Qed.
+Lemma frun_app : forall a b s, frun s (a ++ b) = frun (frun s a) b.
+Proof. induction a as [|o a IH]; intros b s; cbn; [reflexivity|apply IH]. Qed.
+
+(* C13 delivers_on_recovery (the bound: THREE steps from an idle retrier with a drained manager — wake-up tick once
+   the auto-retry delay has elapsed, start tick, one attempt; ONE step from a running retrier: delivers_attempt; one
+   extra tick per message still queued).  The tower accepts from now on: every pending row of the tower is delivered,
+   the tower is shown reachable, its retrier stopped and empty (the next tick drops it), no retry task left. *)
+Theorem delivers_on_recovery ops t r0 a sl rest :
+  ops_fresh f_init ops = true -> let s := frun f_init ops in
+  poisoned s = false -> f_mgr_dead s = false -> f_chan s = [] -> starts_safe s ->
+  aget (f_mgr s) t = Some r0 -> r_status r0 = RIdle -> knownc (f_c s) t -> stat (f_c s) t <> Some SubscriptionError ->
+  set_union (r_pending r0) (pending_locators (c_db (f_c s)) t) <> [] ->
+  at_adds a = accept_all sl ++ rest ->
+  (length (set_union (r_pending r0) (pending_locators (c_db (f_c s)) t)) <= length sl)%nat ->
+  let s3 := frun s [FManagerTick [t]; FManagerTick []; FRetrierRun t [a]] in
+  pending_locators (c_db (f_c s3)) t = [] /\ stat (f_c s3) t = Some Reachable /\ rstat s3 t = Some RStopped /\
+  retrier_pending s3 t = [] /\ ~ In t (f_tasks s3) /\ aget (c_retriers (f_c s3)) t = None.
+Proof.
+  intros Hg s Hp Hd Ec Hsafe Hr Hidle Hk Hnsub Hne Hadds Hlen.
+  pose proof (FInv_frun ops f_init FInv_init Hg) as HF. fold s in HF.
+  assert (HK : MgrKeys s) by (apply MgrKeys_frun; constructor).
+  cbn [frun].
+  (* tick 1: wake *)
+  destruct (manager_wakes s t r0 [t] HF HK Hsafe Hp Hd Ec Hr Hidle) as [W1 [W2 [W3 [W4 [W5 [W6 [W7 W8]]]]]]]; [cbn; rewrite N.eqb_refl; reflexivity|].
+  pose proof (starts_safe_after_wake_tick s t HK Hsafe Hp Hd Ec Hk) as Hsafe1.
+  assert (HF1 : FInv (fst (fstep s (FManagerTick [t])))) by (apply FInv_fstep; [exact HF|reflexivity]).
+  assert (HK1 : MgrKeys (fst (fstep s (FManagerTick [t])))) by (apply MgrKeys_fstep, HK).
+  cbn [fstep] in *. set (s1 := fst (f_manager_tick s [t])) in *.
+  set (P := set_union (r_pending r0) (pending_locators (c_db (f_c s)) t)) in *.
+  assert (Hss : should_start {| r_status := RStopped; r_pending := P |} = true) by (unfold should_start; cbn; destruct P; [contradiction|reflexivity]).
+  (* tick 2: start *)
+  destruct (manager_starts s1 t _ [] HF1 HK1 Hsafe1 W8 W6 W5 W1 Hss) as [S1 [S2 [S3 [S4 [S5 [S6 [S7 S8]]]]]]].
+  cbn [r_pending] in S1.
+  set (s2 := fst (f_manager_tick s1 [])) in *.
+  (* the attempt *)
+  assert (Hg2 : ops_fresh f_init (ops ++ [FManagerTick [t]; FManagerTick []]) = true).
+  { rewrite ops_fresh_app, Hg. reflexivity. }
+  assert (E2 : frun f_init (ops ++ [FManagerTick [t]; FManagerTick []]) = s2).
+  { rewrite frun_app. reflexivity. }
+  assert (Hk2 : knownc (f_c s2) t).
+  { unfold knownc, amem. unfold stat in S4. destruct (aget (c_towers (f_c s2)) t); [reflexivity|].
+    destruct (match option_map su_status (aget (c_towers (f_c s1)) t) with Some SubscriptionError => true | _ => false end); [|discriminate S4].
+    cbn in S4. fold (stat (f_c s1) t) in S4. rewrite W3 in S4. unfold knownc, amem in Hk. unfold stat in S4. destruct (aget (c_towers (f_c s)) t); [discriminate S4|discriminate Hk]. }
+  assert (Hpend2 : retrier_pending s2 t = P) by (unfold retrier_pending; rewrite S1; reflexivity).
+  assert (Hst2 : stat (f_c s2) t <> Some SubscriptionError).
+  { rewrite S4, W3. destruct (stat (f_c s) t) as [[]|]; try discriminate; try (intros H; apply Hnsub; exact H). }
+  pose proof (delivers_attempt (ops ++ [FManagerTick [t]; FManagerTick []]) t a sl rest Hg2) as D. cbv zeta in D. rewrite E2 in D.
+  destruct D as [D1 [D2 [D3 [D4 [D5 [D6 [D7 D8]]]]]]]; [exact S8|exact S3|exact Hk2|exact Hadds|rewrite Hpend2; exact Hlen|intros H; contradiction|].
+  cbn [fstep] in *. destruct (f_retrier_run s2 t [a]) as [s3 o]. cbn [fst snd] in *.
+  split; [|repeat (split; [assumption|]); assumption].
+  (* no pending row of t is left: each one was a pending row before the ticks, hence in the woken set, hence delivered *)
+  destruct (pending_locators (c_db (f_c s3)) t) as [|x q] eqn:Eq; [reflexivity|]. exfalso.
+  assert (Hx : In x (pending_locators (c_db (f_c s3)) t)) by (rewrite Eq; left; reflexivity).
+  apply In_pending_locators in Hx. destruct Hx as [row [A [B C]]].
+  assert (HP3 : Prow (c_db (f_c s3)) t x) by (exists row; auto).
+  pose proof (D8 t x HP3) as HP2. rewrite S5, W4 in HP2.
+  assert (HinP : In x P).
+  { unfold P. apply In_set_union. right. apply In_pending_locators. destruct HP2 as [row2 [A2 [B2 C2]]]. exists row2. auto. }
+  rewrite <- Hpend2 in HinP. destruct (D7 x HinP) as [Hno _]. exact (Hno HP3).
 Qed.
